@@ -75,6 +75,7 @@ type Frame struct {
 type exitInfo struct {
 	st  *State
 	res []Value
+	pos token.Pos
 }
 
 type Exec struct {
@@ -97,9 +98,9 @@ type Exec struct {
 	boxes            map[string]boxed
 	realFloats       bool
 	stubsUsed        map[string]bool
-	closedHeap       bool            // pragma closedheap yes
+	closedHeap       bool // pragma closedheap yes
 	closedDone       map[string]bool
-	anchorArgTypes   []types.Type // static types of the arguments of the anchor being fired (send)
+	anchorArgTypes   []types.Type    // static types of the arguments of the anchor being fired (send)
 	abstracted       map[string]bool // calls over-approximated under `pragma unknowncalls havoc`
 	inlined          map[string]bool
 	calleesUsed      map[string]bool
@@ -1113,7 +1114,7 @@ func (ex *Exec) runBody(fr *Frame, st0 *State) []exitInfo {
 				for _, r := range x.Results {
 					res = append(res, ex.val(r))
 				}
-				exits = append(exits, exitInfo{st: st.clone(), res: res})
+				exits = append(exits, exitInfo{st: st.clone(), res: res, pos: x.Pos()})
 			case *ssa.Panic:
 				ex.doPanic(x)
 			default:
